@@ -79,6 +79,13 @@ TEMPLATES = {
     "posonly": "def main(n):\n    {A} = n + 1\n\n    def inner({A}, /, {B}=2):\n        return {A} * 10 + {B}\n\n    return inner(3), {A}\n\n\nprint(main(inp()))\n",
     "class_scope": "def main(n):\n    {A} = n + 1\n\n    class Inner:\n        {A} = 7\n        {B} = {A} + 1\n\n    return Inner.{A}, Inner.{B}, {A}\n\n\nprint(main(inp()))\n",
     "lambda_param": "def main(n):\n    {A} = n + 1\n    {B} = lambda {A}: {A} * 2\n    return {B}(5), {A}\n\n\nprint(main(inp()))\n",
+    # a local whose conventional name is the name of a (coroutine) function that the same scope calls and whose own
+    # rename is discarded in the pass (recursive / used by an earlier function)
+    "async_recursive": "import asyncio\n\n\nasync def {B}(n):\n    if n <= 0:\n        return 0\n    return 1 + await {B}(n - 1)\n\n\ndef main(v):\n    {A} = v + 3\n    return asyncio.run({B}({A}))\n\n\nprint(main(inp()))\n",
+    "async_used_earlier": "import asyncio\n\n\ndef do_stuff():\n    return asyncio.run({B}())\n\n\nasync def {B}():\n    return 41\n\n\ndef main(v):\n    {A} = v\n    return {A} + asyncio.run({B}()) + do_stuff()\n\n\nprint(main(inp()))\n",
+    "func_recursive": "def {B}(n):\n    if n <= 0:\n        return 0\n    return 1 + {B}(n - 1)\n\n\ndef main(v):\n    {A} = v + 3\n    return {B}({A})\n\n\nprint(main(inp()))\n",
+    "func_used_earlier": "def do_stuff():\n    return {B}()\n\n\ndef {B}():\n    return 41\n\n\ndef main(v):\n    {A} = v\n    return {A} + {B}() + do_stuff()\n\n\nprint(main(inp()))\n",
+    "class_used_earlier": "def do_stuff():\n    return {B}().v\n\n\nclass {B}:\n    v = 41\n\n\ndef main(v):\n    {A} = v\n    return {A} + {B}().v + do_stuff()\n\n\nprint(main(inp()))\n",
     "nested_loops": "def main(n):\n    {B} = []\n    for {A} in range(n):\n        inner = [1, 2]\n        {B}.extend(inner)\n    return {B}\n\n\nprint(main(inp() + 3))\n",
 }
 
